@@ -17,6 +17,7 @@
 package main
 
 import (
+	"bufio"
 	"crypto/sha256"
 	"encoding/hex"
 	"encoding/json"
@@ -35,6 +36,7 @@ import (
 	"github.com/janelia-flyem/dvid/server"
 	"github.com/janelia-flyem/dvid/storage"
 	"verif/harness/dv"
+	"verif/harness/dvh"
 	"verif/harness/lib"
 
 	// datatypes compiled into cmd/dvid that harness/dv does not import
@@ -115,7 +117,13 @@ type instT struct {
 	Unversioned     bool
 }
 
-func pkgOf(uuid, name string) string {
+func pkgOf(uuid, name, typ string) string {
+	if !inProcess {
+		if strings.HasSuffix(typ, "blk") && typ != "labelblk" {
+			return "imageblk" // uint8blk, uint16blk, ... are instances of package imageblk
+		}
+		return typ
+	}
 	d, err := datastore.GetDataByUUIDName(dvid.UUID(uuid), dvid.InstanceName(name))
 	if err != nil {
 		return ""
@@ -135,7 +143,8 @@ type digT struct {
 }
 
 var insts []instT
-var uuidR, uuidV, uuidW, uuidU, uuidX string
+var uuidR, uuidG, uuidP, uuidV, uuidW, uuidU, uuidX string // uuidR = E, the empty root
+var inProcess = true
 var verV, verX dvid.VersionID // the protected (committed) versions
 
 func storesOf() []storage.OrderedKeyValueDB {
@@ -611,6 +620,10 @@ func shortcutProbe(in instT, kw, meth string) probeT {
 }
 
 func main() {
+	if len(os.Args) > 1 && os.Args[1] == dvh.Marker {
+		filterChildStdout()
+	}
+	dvh.MaybeChild() // re-executed as the restartable child server of the restart phase
 	o := lib.ParseOpts()
 	rng := lib.NewRand(o.Seed)
 	run := lib.NewRun("C02", o)
@@ -647,6 +660,13 @@ func main() {
 				Config string `json:"config"`
 			}
 			lib.LoadReplay(o.Replay, &st)
+			if st.Config == restartConfig {
+				dv.Close()
+				closed = true
+				restartPhase(run, rng, o)
+				run.Finish("c02case", "replay", tail)
+				return
+			}
 			if st.Config == cacheConfig {
 				dv.Close()
 				closed = true
@@ -892,6 +912,11 @@ func main() {
 	lap("stability-cache")
 	server.CloseTest()
 
+	// 9. read stability across a real restart: the server is a child process on its own store
+	//    directories; it is shut down and a new process is started on the same directories
+	restartPhase(run, rng, o)
+	lap("restart")
+
 	run.Finish("c02case",
 		"every generated (datatype package, keyword) of the instantiable packages x {GET,HEAD,POST,PUT,DELETE,PATCH} with write-plausible bodies against a committed version in default mode (exhaustive over the generated table), seeded samples of the same matrix with a wrong token / in read-only / full-write / admin modes and on an open child, node- and repo-level routes in every mode; four store digests after every request; then a random later history with a full GET snapshot of the committed version before and after; distinct = distinct (mode, target, route, instance, method)",
 		tail)
@@ -914,6 +939,87 @@ func reopenWithCache(run *lib.Run) {
 	server.VerifSetModes(false, false, "")
 	setup(run)
 }
+
+// filterChildStdout: the child answers one JSON object per line on stdout, and some DVID code
+// prints to stdout too (labelsz "Launching sync event handler...", labelvol "Sparsevol on ...").
+// In the child everything written to os.Stdout goes through a pipe; only lines that are JSON
+// objects are passed on to the real stdout, the rest goes to stderr.
+func filterChildStdout() {
+	real := os.Stdout
+	pr, pw, err := os.Pipe()
+	if err != nil {
+		return
+	}
+	os.Stdout = pw
+	go func() {
+		rd := bufio.NewReaderSize(pr, 1<<20)
+		for {
+			line, err := rd.ReadBytes('\n')
+			if len(line) > 0 {
+				if line[0] == '{' && json.Valid(line) {
+					real.Write(line)
+				} else {
+					os.Stderr.Write(line)
+				}
+			}
+			if err != nil {
+				return
+			}
+		}
+	}()
+}
+
+const restartConfig = "restart"
+
+// restartPhase rebuilds the repo in a child process (harness/dvh: stores under one directory, opened
+// as the dvid binary opens them), records V, P and X, runs a short later history, shuts the
+// process down, starts a new one on the same directories and re-reads.  Everything that lives
+// only in memory (label maps, index caches, neuronjson's in-memory store) is rebuilt from disk.
+func restartPhase(run *lib.Run, rng *lib.Rand, o lib.Opts) {
+	dir, err := os.MkdirTemp("", "c02restart")
+	if err != nil {
+		panic(err)
+	}
+	defer os.RemoveAll(dir)
+	p, err := dvh.Start(dvh.Opts{Dir: dir})
+	if err != nil {
+		fmt.Fprintln(os.Stderr, "c02: cannot start the child server:", err)
+		os.Exit(2)
+	}
+	child := func(method, url string, body []byte) dv.Resp {
+		if len(body) == 0 {
+			body = []byte(" ") // (the pipe protocol drops an empty body; a nil http body panics in handlers that read it)
+		}
+		status, b, alive := p.HTTP(method, url, body)
+		if !alive {
+			lg, _ := os.ReadFile(p.Log)
+			if len(lg) > 3000 {
+				lg = lg[len(lg)-3000:]
+			}
+			fmt.Fprintf(os.Stderr, "c02: the child server died (exit %d) on %s %s body %q\n%s\n%s\n", p.Exit, method, url, truncate(string(body), 200), p.Stderr, lg)
+			os.Exit(2)
+		}
+		return dv.Resp{Status: status, Body: b}
+	}
+	httpDo, inProcess = child, false
+	defer func() { httpDo, inProcess = dv.Do, true }()
+	setup(run)
+	restart := func() {
+		p.Quit()
+		np, err := dvh.Start(dvh.Opts{Dir: dir})
+		if err != nil {
+			fmt.Fprintln(os.Stderr, "c02: the server did not come up again on its own stores:", err)
+			os.Exit(2)
+		}
+		p = np
+	}
+	restartFn = restart
+	stability(run, rng, o, restartConfig)
+	restartFn = nil
+	p.Quit()
+}
+
+var restartFn func()
 
 func toInt(v interface{}) int {
 	if i, ok := v.(int); ok {
